@@ -104,8 +104,9 @@ func Describe(m *Msg, datagram bool) string {
 
 // ---------------------------------------------------------------------------------------------
 
-// Slot is one worker's watchdog slot: the worker fills Case (any cheap description of the call
-// it is about to make) and then bumps Tick; a call that never returns leaves Tick frozen.
+// Slot is one worker's watchdog slot: the worker updates its own current-case variables and
+// then bumps the tick (Touch) before every library call; a call that never returns leaves the
+// tick frozen while the slot is busy.
 type Slot struct {
 	tick atomic.Uint64
 	busy atomic.Bool
@@ -113,9 +114,11 @@ type Slot struct {
 	_    [64]byte
 }
 
-// Begin publishes the case about to run (c must not be modified until the next Begin).
-func (s *Slot) Begin(c func() (string, string, any)) {
-	s.Case = c
+// Describe installs the function that renders the worker's current case (called only after a stall).
+func (s *Slot) Describe(c func() (string, string, any)) { s.Case = c }
+
+// Resume marks the worker busy: from now on it must Touch at least once per watchdog period.
+func (s *Slot) Resume() {
 	s.busy.Store(true)
 	s.tick.Add(1)
 }
